@@ -1,7 +1,7 @@
 (* PropC12.v — C12: a batch append is all-or-nothing (one call = one entry; the codec validates the whole batch; replay applies all records of an entry or fails; a torn or damaged entry is delivered whole or not at all by the record reader).
    Statements only; each theorem is closed by `exact <lemma>`; proofs live in the imported files. *)
 From Coq Require Import Lia NArith List.
-From MRL Require Import Bytes Params Names Frame Record Mem Rolling Log Driver SpecRefine RecordProofs StreamProofs TornProofs DamageProofs OpenReplay TornFile DamageFile CrashCorollaries PersistSurvive CrashAtomic DamageAtomic RestartInv RestartFinal PowerLoss PowerCorollaries.
+From MRL Require Import Bytes Params Names Frame Record Mem Rolling Log Driver SpecRefine RecordProofs StreamProofs TornProofs DamageProofs OpenReplay TornFile DamageFile CrashCorollaries PersistSurvive CrashAtomic DamageAtomic RestartInv RestartFinal PowerLoss PowerCorollaries HeaderDamageEv HeaderDamage.
 
 (* whatever decodes as an AppendRecords entry is exactly the serialization of the batch it decodes to: no partial batch *)
 Theorem C12_batch_decodes_whole :
@@ -317,8 +317,8 @@ Theorem C12_batch_crash_always :
     L_IO P = false ->
     L_SHORT P = false ->
     no_zero_collision P ->
-    forall (a : bool) (st0 : state) (h : list hop) (st : state) (outs : list outcome)
-    (o : op) (tick : bool) (st' : state) (out : outcome),
+    forall (a : bool) (st0 : state) (h : list hop) (st : state) (outs : list Log.outcome)
+    (o : op) (tick : bool) (st' : state) (out : Log.outcome),
     open P [] None (PAlways a) [] = OpenOk st0 ->
     hrun P st0 h = Some (st, outs) ->
     hist_ok P st0 h ->
@@ -495,4 +495,18 @@ Theorem C12_batch_power_persisted :
     last < next /\ filter (in_span b (last + 1)) recs = skipn j (Spec.s_number b pl)).
 Proof. exact batch_power_persisted. Qed.
 Print Assumptions C12_batch_power_persisted.
+
+(* arbitrary damage inside one block, frame headers included (stream level): what is delivered is a sub-list of the written ENTRIES - a batch is one entry, so it is delivered whole or not at all - provided only genuine frames verify on the reader's path through that block (NoEmbeddedPath; false otherwise: F4) *)
+Theorem C12_header_damage_entry_granular :
+    forall P : params,
+    7 < BS P ->
+    BS P <= 65542 ->
+    (forall (t : byte) (p : bytes), crcf P t p < 2 ^ 32) ->
+    forall (es : list bytes) (t D : bytes) (b : N),
+    encs_rel P 0 es t ->
+    damaged_in_block P D t b ->
+    NoEmbeddedPath P D b t ->
+    let out := mem_read_stream P D in ~ In MrFuel out /\ sublist (delivered out) es.
+Proof. exact header_damage_sublist. Qed.
+Print Assumptions C12_header_damage_entry_granular.
 
